@@ -487,7 +487,7 @@ HARNESSES = [
                                                    ('c', 8, 4, 4, 2.0, False), ('b', 4, 4, 4, 6.0, True), ('c', 2, 2, 2, 2.0, False))
                    if k == 'conv2d' or not pd]
          + [dict(kind=k, backend=b, wt=w, p_in=8, p_out=8, p_w=8, clip_in=1.0, clip_out=2.0, last=l, pad=pd, bias=False)
-            for k in ('conv2d', 'linear') for b in ('match', 'maupiti') for l in (False, True) for w in ('a', 'b') for pd in (False, True) if k == 'conv2d' or not pd]
+            for k in ('conv2d', 'linear') for b in ('match', 'maupiti') for l in (False, True) for w in ('a', 'b') for pd in (False, True) if (k == 'conv2d' and (w == 'a' or not pd)) or not pd]
          + [dict(kind='conv2d', backend=b, wt=w, p_in=8, p_out=pq, p_w=pq, clip_in=1.0, clip_out=2.0, last=l, pad=False, bias=bs, dil=d)
             for b in ('match', 'maupiti') for d in (0, 1) for w in ('a', 'c') for pq in (8, 4) for l in (False, True) for bs in (True, False)]
          + [dict(kind='conv2d', backend=b, wt=w, p_in=8, p_out=8, p_w=8, clip_in=1.0, clip_out=2.0, last=False, pad='h', bias=bs) for b in ('match', 'maupiti') for w in ('a', 'c') for bs in (True, False)],
